@@ -546,7 +546,8 @@ def numeral_type_rule(repo, rid):
                     all(isinstance(x, ast.Call) and call_attr(x) == 'dest_number' and isinstance(x.func.value, ast.Name) for x in (c.left, c.comparators[0]))]
             if not cmps:
                 continue
-            node = desugar_bool_returns(f.node)
+            from ..cfg import inline_named_conditions
+            node = inline_named_conditions(desugar_bool_returns(f.node))       # `ok = <type test> and ..; return ok and <comparison>`
             cfg = cfg_of(node)
             subjects = {x.func.value.id for c in cmps for x in (c.left, c.comparators[0])}
             tests = [t for t in cfg.test_nodes() if isinstance(t.ast, ast.Compare) and any(src(t.ast) == src(c) for c in cmps)]
